@@ -423,6 +423,29 @@ func init() {
 	intrinsicMods["(io.WriterAt).WriteAt"] = noMods
 	intrinsics["(io.Writer).Write"] = writeAt
 	intrinsicMods["(io.Writer).Write"] = noMods
+	// os.File.Stat / FileInfo.Size: the size reported for a file handle is a fixed (uninterpreted) function of the
+	// handle, non-negative; Stat returns a non-nil FileInfo when it returns no error.
+	intrinsics["(*os.File).Stat"] = func(fr *frame, c *ssa.CallCommon, args []*Val, rt types.Type, pos token.Pos) *Val {
+		ft := fr.ft
+		ft.c.addPre("statinfo", "(declare-fun statinfo (Int) Int)\n(declare-fun infosize (Int) "+SBV(64)+")")
+		err := ft.freshVal("staterr", types.Universe.Lookup("error").Type())
+		tt := rt.(*types.Tuple)
+		fi := ft.freshVal("fileinfo", tt.At(0).Type())
+		pl := rawApp(SInt, "statinfo", args[0].L[0])
+		ft.c.Assume(fi.L[0], mkImp(mkEq(err.L[0], intConst(0)), mkNot(mkEq(fi.L[0], intConst(0)))))
+		ft.c.Assume(fi.L[1], mkEq(fi.L[1], pl))
+		return &Val{T: rt, Tup: []*Val{fi, err}}
+	}
+	intrinsicMods["(*os.File).Stat"] = noMods
+	intrinsics["(io/fs.FileInfo).Size"] = func(fr *frame, c *ssa.CallCommon, args []*Val, rt types.Type, pos token.Pos) *Val {
+		ft := fr.ft
+		ft.c.addPre("statinfo", "(declare-fun statinfo (Int) Int)\n(declare-fun infosize (Int) "+SBV(64)+")")
+		sz := ft.c.Fresh("fsize", SBV(64))
+		ft.c.Assume(sz, mkEq(sz, rawApp(SBV(64), "infosize", args[0].L[1])))
+		ft.c.Assume(sz, mkAnd(app(SBool, "bvsge", sz, bvInt(64, 0)), app(SBool, "bvsle", sz, bvInt(64, 1<<62))))
+		return &Val{T: rt, L: []Term{sz}}
+	}
+	intrinsicMods["(io/fs.FileInfo).Size"] = noMods
 	intrinsics["io.ReadFull"] = func(fr *frame, c *ssa.CallCommon, args []*Val, rt types.Type, pos token.Pos) *Val {
 		return readAt(fr, c, args, rt, pos)
 	}
